@@ -44,10 +44,17 @@ InsiderOK ==
 (*   P made for M (HandshakeRelay.tla).  P never spoke on V's connection and M does not hold P's key.            *)
 RelayOK == ~Ev.registered                                             \* NoLinkWithoutProof
 
+(*  {"ev":"overlap","regD":B,"regL":B,"trafficok":B,"clear":B}                                                    *)
+(*   two connections between the same routers whose handshakes overlap (HandshakeOverlap.tla, the schedule of       *)
+(*   ScheduleReached enforced by the proxy): whatever link is registered at the end carries traffic, encrypted       *)
+OverlapOK == /\ (Ev.regD /\ Ev.regL) => (Ev.trafficok /\ ~Ev.clear)
+             /\ Ev.regD = Ev.regL                          \* at quiescence a link has two ends or none
+
 TraceNext == /\ l <= Len(Trace) /\ l' = l + 1
              /\ \/ (Ev.ev = "setup" /\ SetupOK = TRUE)
                 \/ (Ev.ev = "insider" /\ InsiderOK = TRUE)
                 \/ (Ev.ev = "relay" /\ RelayOK = TRUE)
+                \/ (Ev.ev = "overlap" /\ OverlapOK = TRUE)
 
 TraceAccepted ==
   LET dd == TLCGet("stats").diameter
